@@ -116,6 +116,10 @@ def run(cx):
     id_arith_discipline(cx, "C05.m")
     from props.shared import emitter_no_abandon
     emitter_no_abandon(cx, "C05.n")
+    # a header bit that spills into a neighbouring field makes the receiver refuse (or re-file) a packet that was
+    # sent and received intact
+    from bits import check_headers
+    check_headers(cx, "C05.o", "C05.p")
     with cx.instance("C05.e", "T3 WHO-MAY", "the send queue loses packets only through the stale-TimeSensitive drop and the move into the send window", floor=2) as inst:
         b = R.body("PacketSender::emit_packet")
         pops = call_sites(b, "VecDeque::pop_front", r"arg1\.packet_send_queue")
